@@ -22,9 +22,18 @@ static void sp_add(const uint8_t* b, int n) {
 
 typedef struct { long off; int len, key; } M;
 static M got[4096]; static int ngot; static int verdict1, verdict2, have2, tmm, nrulemsg;
+/* multi-rule mode (command M): matches of the first string of each of up to 8 rules */
+static int multi; static M mg[8][512]; static int nmg[8]; static int mverd[8];
 static int cb(YR_SCAN_CONTEXT* ctx, int msg, void* data, void* ud) {
   if (msg == CALLBACK_MSG_RULE_MATCHING || msg == CALLBACK_MSG_RULE_NOT_MATCHING) {
     YR_RULE* r = (YR_RULE*) data;
+    if (multi) {
+      if (nrulemsg < 8) {
+        YR_STRING* s; int k = nrulemsg; nmg[k] = 0; mverd[k] = (msg == CALLBACK_MSG_RULE_MATCHING);
+        yr_rule_strings_foreach(r, s) { for (YR_MATCH* m = ctx->matches[s->idx].head; m; m = m->next) if (nmg[k] < 512) { mg[k][nmg[k]].off = (long)(m->base + m->offset); mg[k][nmg[k]].len = m->match_length; nmg[k]++; } break; }
+      }
+      nrulemsg++; return CALLBACK_CONTINUE;
+    }
     if (nrulemsg == 0) {
       YR_STRING* s; ngot = 0; verdict1 = (msg == CALLBACK_MSG_RULE_MATCHING);
       yr_rule_strings_foreach(r, s) {
@@ -86,6 +95,43 @@ int main(void) {
         for (int i = t + 1; i < nt; i++) { size_t n; uint8_t* b = unhex(tok[i], &n); if (n <= MAXBUF) sp_add(b, (int) n); free(b); }
       }
       printf("{\"space\":%ld}\n", nsp); fflush(stdout);
+      continue;
+    }
+    if (tok[0][0] == 'M') {
+      /* M <id> <rulehex> <k> <str1hex> .. <strkhex> : k rules, rule i has exactly one plain text string */
+      const char* id = tok[1]; size_t rn; uint8_t* rule = unhex(tok[2], &rn); int k = atoi(tok[3]);
+      uint8_t pats[8][64]; size_t plen[8];
+      for (int i = 0; i < k && i < 8; i++) { size_t n; uint8_t* b = unhex(tok[4 + i], &n); memcpy(pats[i], b, n); plen[i] = n; free(b); }
+      YR_COMPILER* c = NULL; YR_RULES* rules = NULL; YR_SCANNER* sc = NULL;
+      yr_compiler_create(&c);
+      ob_reset(&out);
+      if (yr_compiler_add_string(c, (const char*) rule, NULL) || yr_compiler_get_rules(c, &rules) != ERROR_SUCCESS || yr_scanner_create(rules, &sc) != ERROR_SUCCESS) {
+        ob_puts(&out, "{\"id\":\""); ob_puts(&out, id); ob_puts(&out, "\",\"cerr\":\"compile\"}");
+      } else {
+        long evals = 0, nontriv = 0, nviol = 0; OB fv = {0};
+        yr_scanner_set_callback(sc, cb, NULL); multi = 1;
+        for (long bi = 0; bi < nsp; bi++) {
+          const uint8_t* b = SP[bi]; int n = SPLEN[bi];
+          nrulemsg = 0; for (int i = 0; i < k; i++) nmg[i] = 0;
+          int rc = yr_scanner_scan_mem(sc, b, (size_t) n); evals++;
+          int bad = rc != ERROR_SUCCESS || nrulemsg != k, badrule = -1, any = 0;
+          for (int i = 0; i < k && !bad; i++) {
+            int gi = 0;
+            for (int o = 0; o + (int) plen[i] <= n; o++) {
+              if (!memcmp(b + o, pats[i], plen[i])) { any = 1; if (gi >= nmg[i] || mg[i][gi].off != o || mg[i][gi].len != (int) plen[i]) { bad = 1; badrule = i; break; } gi++; }
+            }
+            if (!bad && (gi != nmg[i] || mverd[i] != (gi > 0))) { bad = 1; badrule = i; }
+          }
+          if (any) nontriv++;
+          if (bad) { nviol++; if (!fv.n) { OB sv = out; out = fv; ob_puts(&out, "{\"buffer\":\""); ob_hex(&out, b, (size_t) n); ob_puts(&out, "\",\"rule\":"); ob_int(&out, badrule); ob_puts(&out, ",\"rc\":"); ob_int(&out, rc);
+              ob_puts(&out, ",\"got\":["); for (int i = 0; badrule >= 0 && i < nmg[badrule]; i++) { if (i) ob_putc(&out, ','); ob_int(&out, mg[badrule][i].off); } ob_puts(&out, "]}"); fv = out; out = sv; } }
+        }
+        multi = 0;
+        ob_puts(&out, "{\"id\":\""); ob_puts(&out, id); ob_puts(&out, "\",\"evals\":"); ob_int(&out, evals); ob_puts(&out, ",\"nontrivial\":"); ob_int(&out, nontriv);
+        ob_puts(&out, ",\"nviol\":"); ob_int(&out, nviol); ob_puts(&out, ",\"viol\":["); if (fv.n) ob_puts(&out, fv.p); ob_puts(&out, "]}"); free(fv.p);
+      }
+      if (sc) yr_scanner_destroy(sc); if (rules) yr_rules_destroy(rules); if (c) yr_compiler_destroy(c); free(rule);
+      fputs(out.p, stdout); fputc('\n', stdout); fflush(stdout);
       continue;
     }
     /* ---- program ---- */
